@@ -197,6 +197,14 @@ def c02(ck):
                         ses.append("%d 16 1 d%d b:%s;b:09;b:0d" % (cap, k, gen.hx(pre)))
 
     ses += tab_sweep_sessions(declgen, sets)
+    # every boundary scalar deleted from the MIDDLE of a line (Backspace with text after it) and moved over, then submitted and recalled:
+    # a width taken from the lead byte by a slightly wrong table leaves a stray octet behind
+    for cp in sorted(set(gen.BOUNDARY_CPS + [0x800, 0x801, 0xE01, 0xFFF, 0x1000, 0xD7FF, 0xE000, 0xFFFD, 0xFFFF, 0x10000, 0x3FFFF, 0x40000, 0xFFFFF, 0x100000, 0x10FFFF])):
+        if cp in (0x20, 0x7F, 0x22, 0x5C) or 0xD800 <= cp <= 0xDFFF or cp < 0x20:
+            continue
+        e = gen.hx(gen.enc(cp))
+        ses.append("16 32 1 raw b:61%s62;b:1b5b44;b:08;b:0d;b:1b5b41;b:0d" % e)
+        ses.append("16 32 1 raw b:%s%s78;b:1b5b44;b:1b5b44;b:08;b:1b5b43;b:08;b:0d;b:1b5b41" % (e, e))
     # the library's own messages that quote what was typed: an unknown short option / long option / argument made of boundary scalars of
     # every encoded length (the short option goes through char_pop_front and back through encode_utf8)
     for k, s_ in enumerate(sets):
